@@ -41,7 +41,8 @@ Markup ==
     ">", "<r/>", "(", "a", "|b)", "(b|",
     ")", ",b)", "(b,", "((", "|b)*,b)+", "<!ENTITY e",
     " \"&e", ";\">", "<r>&e0001;</r>", "<r a=\"&e0001;\"/>", " \"v\">", ";&e",
-    "<a b=\"1\" c='2'>x", "y</a>", "</b>", "&e", ";", "<!ATTLIST r a", " CDATA \"v\">", "<!ATTLIST zz a CDATA \"&e0001;\">" }
+    "<a b=\"1\" c='2'>x", "y</a>", "</b>", "&e", ";", "<!ATTLIST r a", " CDATA \"v\">", "<!ATTLIST zz a CDATA \"&e0001;\">",
+    "<!ENTITY e0000 \"", "<r>&e0000;</r>", "<!ENTITY e9999 \"v\">" }
 STab == [str \in Markup |-> Cps(str)]
 S(str) == STab[str]
 
@@ -113,6 +114,16 @@ CycleAttr(k)    == DtdOpen \o EntDecls(k, 1) \o DtdClose \o UseInAttr
 ChainDecls(n) == EntDecls(n, n + 1) \o S("<!ENTITY e") \o D4(n + 1) \o S(" \"v\">")
 ChainContent(n) == DtdOpen \o ChainDecls(n) \o DtdClose \o UseInContent
 ChainAttr(n)    == DtdOpen \o ChainDecls(n) \o DtdClose \o UseInAttr
+\* n "ladders" of 100 entities each: ladder i ends in a reference to the START of ladder i-1 (the first one in plain
+\* text), and the root entity e0000 refers to the starts of all ladders in turn - so when ladder i is looked at, everything
+\* below it has been seen already.  The nesting of references is 100 * n deep.
+LadderLen == 100
+LadderPiece(j) ==            \* (all pieces have one length: the first ladder ends in a reference to the plain entity e9999)
+  S("<!ENTITY e") \o D4(j) \o S(" \"&e")
+  \o D4(IF j % LadderLen # 0 THEN j + 1 ELSE IF j = LadderLen THEN 9999 ELSE j - 2 * LadderLen + 1) \o S(";\">")
+LadderRootPiece(i) == S("&e") \o D4((i - 1) * LadderLen + 1) \o S(";")
+Ladders(n) == DtdOpen \o Pieces(n * LadderLen, LadderPiece) \o S("<!ENTITY e9999 \"v\">")
+              \o S("<!ENTITY e0000 \"") \o Pieces(n, LadderRootPiece) \o S("\">") \o DtdClose \o S("<r>&e0000;</r>")
 \* n independent entities, each referenced once; n ATTLIST declarations for the same element
 PlainEntPiece(j) == S("<!ENTITY e") \o D4(j) \o S(" \"v\">")
 EntRefPiece(j)   == S("&e") \o D4(j) \o S(";")
@@ -190,7 +201,7 @@ Odd(n) == OddDocs[n]
 
 Families == { "Deep", "DeepMixed", "Unclosed", "Mismatch", "ManyEntities", "ManyAttlists", "ManyChildren", "ManyAttrs", "LongText", "LongComment", "LongAttr", "LongCData",
               "ManyRefs", "GroupsL", "GroupsR", "SeqGroupsL", "SeqGroupsR", "MixGroupsL", "Parens",
-              "CycleContent", "CycleAttr", "ChainContent", "ChainAttr", "Laughs", "LaughsUnused", "Odd" }
+              "CycleContent", "CycleAttr", "ChainContent", "ChainAttr", "Ladders", "Laughs", "LaughsUnused", "Odd" }
 
 Render(f, n) ==
   CASE f = "Deep" -> Deep(n)
@@ -216,6 +227,7 @@ Render(f, n) ==
     [] f = "CycleAttr" -> CycleAttr(n)
     [] f = "ChainContent" -> ChainContent(n)
     [] f = "ChainAttr" -> ChainAttr(n)
+    [] f = "Ladders" -> Ladders(n)
     [] f = "Laughs" -> Laughs(n)
     [] f = "LaughsUnused" -> LaughsUnused(n)
     [] f = "Odd" -> Odd(n)
@@ -236,6 +248,7 @@ MaxN(f) ==
     [] f \in {"GroupsL", "GroupsR", "SeqGroupsL", "SeqGroupsR", "MixGroupsL"} -> 40
     [] f \in {"CycleContent", "CycleAttr"} -> 40
     [] f \in {"ChainContent", "ChainAttr"} -> 9000
+    [] f = "Ladders" -> 90
     [] f = "Laughs" -> 12
     [] f = "LaughsUnused" -> 40
     [] f = "Odd" -> Len(OddDocs)
@@ -257,6 +270,7 @@ LenA(f) ==
     [] f = "MixGroupsL" -> 10
     [] f = "Parens" -> 2
     [] f \in {"CycleContent", "CycleAttr", "ChainContent", "ChainAttr"} -> 26
+    [] f = "Ladders" -> 2700
     [] f \in {"Laughs", "LaughsUnused"} -> 33
     [] f = "Odd" -> 0
 MaxLen(f, n) == LenA(f) * n + 120
